@@ -217,6 +217,17 @@ class C05Scenario(ChangeScenario):
                 out.append(self.viol(env, 'kind-mismatch', f"t={t}: {kind['on']} handler {hid} invoked for reason {reason}", clause='exclusive'))
             if kind['on'] == 'resume' and reason == 'create':
                 out.append(self.viol(env, 'kind-mismatch', f"t={t}: resume handler {hid} invoked in a creation cycle (creation never mixes with resuming)", clause='exclusive'))
+        # no event that differs essentially from the last-handled state may be taken for nothing: once the world is quiet, every
+        # live object has been handled in its final state
+        t_last = max([t for t, k, p in env.obs if k in ('user', 'kill', 'start')] + [0.0])
+        if clean and not env.deviations and not env.owes() and env.end_reason == 'horizon' and env.now >= t_last + 15 and env.memo.get('pipeline') is not None:
+            for (ns, name), obj in env.world.objects[self.kind.key].items():
+                if 'deletionTimestamp' in obj['metadata']:
+                    continue
+                if last_handled(obj) != essence_ref(obj):
+                    out.append(self.viol(env, 'difference-taken-for-nothing', f"object {name}: {env.now - t_last:.0f}s after the last edit its last-handled state is "
+                                                                              f"{last_handled(obj)} while its essence is {essence_ref(obj)}: the change was classified as no change",
+                                         clause='one-cause', what='update-as-noop'))
         return out
 
 
@@ -225,6 +236,8 @@ def histories(depth: int, bare: bool) -> list[list[tuple[str, ...]]]:
                                        ('addfin', 'a', 'other/fin'), ('delfin', 'a', 'other/fin')]
     if not bare:
         alphabet.insert(0, ('spec', 'a', 2))
+        alphabet.insert(1, ('append', 'a'))
+        alphabet.insert(2, ('truncate', 'a'))
     out = []
     for d in range(0, depth + 1):
         for combo in itertools.product(alphabet, repeat=d):
